@@ -29,7 +29,7 @@ MANIFEST = dict(
          "and keeps it unaliased (the O(n+k) clause), a shared list is copied exactly once and is unaliased afterwards, drop_lhs makes "
          "the operator's argument unique. The machine is tied to /repo on every run by comparing its heap with the implementation's "
          "real Rc graph (addresses, strong counts) after every statement of generated histories; the O(n+k) clause is measured "
-         "directly with a counting global allocator on 42 workloads (incl. nested pop/remove/consume and op-assign with a shared right operand) at 6 size points, unaliased and once-aliased.",
+         "directly with a counting global allocator on 61 workloads (every payload kind under op-assign at top level and through list slot / dict key / struct field, nested pop/remove/consume, op-assign with a shared right operand) at 6 size points, unaliased and once-aliased.",
     note="The unaliased/copy-once/drop_lhs theorems are proved for the FLAT fragment only (list of scalars, paths of depth <= 1); nested "
          "rows, dicts, struct fields and pop/remove/builtins at depth are covered by the graph comparison and the allocation "
          "measurement, not by theorems (notes/C02.md). Trusted: Coq kernel; hand-written machine; extraction + OCaml runner; Rust "
@@ -251,6 +251,27 @@ WORKLOADS = [
     ("dict ||= variable", "dict", lambda n: [f"x := {{}}", f"for (i <- 0 til {n}) (x[i] = i)", "other := {-1: 0, -2: 0}"], lambda n, k: f"for (i <- 0 til {k}) (x ||= other)"),
     ("dict |.= variable", "dict", lambda n: [f"x := {{}}", f"for (i <- 0 til {n}) (x[i] = i)", "kk := \"key\""], lambda n, k: f"for (i <- 0 til {k}) (x |.= kk)"),
     ("dict |..= variable", "dict", lambda n: [f"x := {{}}", f"for (i <- 0 til {n}) (x[i] = i)", "pr := [1, [2, 3]] ++ []"], lambda n, k: f"for (i <- 0 til {k}) (x |..= pr)"),
+    # every payload kind under op-assign (drop_lhs must release the variable's / slot's reference for vectors and bytes too),
+    # top level and through a list slot / dict key / struct field
+    ("vector append=", "vector", lambda n: [f"x := vector({lit_list(n)})"], lambda n, k: f"for (i <- 0 til {k}) (x append= i)"),
+    ("vector ++=", "vector", lambda n: [f"x := vector({lit_list(n)})"], lambda n, k: f"for (i <- 0 til {k}) (x ++= vector([i]))"),
+    ("bytes append=", "bytes", lambda n: [f"x := bytes({lit_list(n)})"], lambda n, k: f"for (i <- 0 til {k}) (x append= i % 200)"),
+    ("bytes ++=", "bytes", lambda n: [f"x := bytes({lit_list(n)})"], lambda n, k: f"for (i <- 0 til {k}) (x ++= bytes([i % 200]))"),
+    ("list slot vector append=", "list", lambda n: [f"x := [vector([1, 2]), vector({lit_list(n)})]"], lambda n, k: f"for (i <- 0 til {k}) (x[1] append= i)"),
+    ("list slot vector ++=", "list", lambda n: [f"x := [vector([1, 2]), vector({lit_list(n)})]"], lambda n, k: f"for (i <- 0 til {k}) (x[-1] ++= vector([i]))"),
+    ("list slot bytes append=", "list", lambda n: [f"x := [bytes([1, 2]), bytes({lit_list(n)})]"], lambda n, k: f"for (i <- 0 til {k}) (x[1] append= i % 200)"),
+    ("list slot bytes ++=", "list", lambda n: [f"x := [bytes([1, 2]), bytes({lit_list(n)})]"], lambda n, k: f"for (i <- 0 til {k}) (x[1] ++= bytes([i % 200]))"),
+    ("dict bucket vector append=", "dict", lambda n: [f"x := {{\"a\": vector({lit_list(n)})}}"], lambda n, k: f"for (i <- 0 til {k}) (x[\"a\"] append= i)"),
+    ("dict bucket vector ++=", "dict", lambda n: [f"x := {{\"a\": vector({lit_list(n)})}}"], lambda n, k: f"for (i <- 0 til {k}) (x[\"a\"] ++= vector([i]))"),
+    ("dict bucket bytes append=", "dict", lambda n: [f"x := {{0: bytes({lit_list(n)})}}"], lambda n, k: f"for (i <- 0 til {k}) (x[0] append= i % 200)"),
+    ("dict bucket bytes ++=", "dict", lambda n: [f"x := {{0: bytes({lit_list(n)})}}"], lambda n, k: f"for (i <- 0 til {k}) (x[0] ++= bytes([i % 200]))"),
+    ("struct field vector append=", "P", lambda n: ["struct P (pa, pb)", f"x := P(vector({lit_list(n)}), 0)"], lambda n, k: f"for (i <- 0 til {k}) (x[pa] append= i)"),
+    ("struct field vector ++=", "P", lambda n: ["struct P (pa, pb)", f"x := P(vector({lit_list(n)}), 0)"], lambda n, k: f"for (i <- 0 til {k}) (x[pa] ++= vector([i]))"),
+    ("struct field bytes append=", "P", lambda n: ["struct P (pa, pb)", f"x := P(bytes({lit_list(n)}), 0)"], lambda n, k: f"for (i <- 0 til {k}) (x[pa] append= i % 200)"),
+    ("struct field dict |.=", "P", lambda n: ["struct P (pa, pb)", "x := P({}, 0)", f"for (i <- 0 til {n}) (x[pa] |.= i)"], lambda n, k: f"for (i <- 0 til {k}) (x[pa] |.= ({n} + i))"),
+    ("list slot dict |.=", "list", lambda n: ["x := [{}, 0]", f"for (i <- 0 til {n}) (x[0] |.= i)"], lambda n, k: f"for (i <- 0 til {k}) (x[0] |.= ({n} + i))"),
+    ("list slot dict |..=", "list", lambda n: ["x := [{}, 0]", f"for (i <- 0 til {n}) (x[0] |.= i)"], lambda n, k: f"for (i <- 0 til {k}) (x[0] |..= [i % {n}, i])"),
+    ("vector + scalar", "vector", lambda n: [f"x := vector({lit_list(n)})"], lambda n, k: f"for (i <- 0 til {k}) (x[i % {n}] += 1; x[-1] -= 1)"),
     ("string index-assign", "str", lambda n: [f"x := \"a\" $* {n}"], lambda n, k: f"for (i <- 0 til {k}) (x[i % {n}] = \"b\")"),
 ]
 
